@@ -355,13 +355,13 @@ class SafeLearner(Learner):
 
         if self._pred_batch == 'col':
             kwargs = pred[-1] if self._pred_kwargs else {}
-            pred   = pred[:-1] if self._pred_kwargs else pred
+            pred   = (pred[0] if len(pred)==2 else pred[:-1]) if self._pred_kwargs else pred
 
             if self._pred_format.endswith('*'):
                 pred = list(pred.values())[0]
 
             if self._pred_format[:2] == 'PM':
-                A, P = list(map(list, zip(*map(self._rng.choicew,actions, pred))))
+                A, P = list(map(list, zip(*map(self._rng.choicew,actions, zip(*pred)))))
 
             if self._pred_format[:2] == 'AX':
                 A = pred
